@@ -136,12 +136,7 @@ theorem outcome_post (rev : Rev) (hrev : 2 ≤ rev) (w : World) (cur : Option Ho
       refine ⟨⟨cadj (Or.inl (by simp)), by simp [declSvc], by simp [declSvc]⟩, ⟨_, rfl, rfl, by simp⟩, by simp⟩
     | some c =>
       simp only [hc]
-      refine ⟨⟨cadj (Or.inl (by simp)), by simp [declSvc], by simp [declSvc]⟩, ⟨_, rfl, rfl, ?_⟩, by simp⟩
-      intro r hr
-      simp at hr
-      subst hr
-      exact (cadj (t := t) (a := ⟨.host, host⟩) (b := ⟨.ing, ing.key⟩) (Or.inr (by simp))).trans
-        (cadj (Or.inr (by simp)))
+      refine ⟨⟨cadj (Or.inl (by simp)), by simp [declSvc], by simp [declSvc]⟩, ⟨_, rfl, rfl, by simp⟩, by simp⟩
   | tlsHost secret =>
     unfold outcome
     simp only []
